@@ -90,7 +90,7 @@ CHECKS = {
          "Assumptions: per-query literal code-length class vector, swept completely. Trusted: cbmc, spec/rfc1951.h (self-tested against zlib)."),
  "C10": dict(
     engine="cbmc-c + x86sym", category="model_checking", design_ref="DESIGN.md §5b C10",
-    technique="CBMC: avail_out sweep on exact-size output objects for the one-shot API; stored-block fallback with SYMBOLIC n <= 200000 and a range-recording memcpy; parameter validation with fully symbolic level/flush/level_buf_size; symbolic execution (x86sym + z3) of the assembled ICF bit emitters; the assembly level-0 kernel isal_deflate_finish_01 lifted to C (vlib/x86lift.py) and decided by CBMC for memory safety and accounting",
+    technique="CBMC: avail_out sweep on exact-size output objects for the one-shot API; stored-block fallback with SYMBOLIC n <= 200000 and a range-recording memcpy; parameter validation with fully symbolic level/flush/level_buf_size; symbolic execution (x86sym + z3) of the assembled ICF bit emitters; the assembly level-0 kernel isal_deflate_finish_01 lifted to C (vlib/x86lift.py) and decided by CBMC for memory safety and accounting (shallow bug-hunting pre-pass, then the full bounded run)",
     text="(a) avail_out 0..bound+9 for n <= 2 (3): COMP_OK whenever avail_out >= n+5*blocks+wrapper, a COMP_OK result is a complete correct stream, no byte written past avail_out, counters consistent. (b) stored fallback for all n <= 200000 symbolically: block count, LEN/NLEN, BFINAL on the last block only, "
          "tiling of the input, total_out formula, no arithmetic wrap; the real stored_len arithmetic at the 65535-byte boundaries. (c) every invalid level/flush/level buffer is rejected with the documented code before any output. "
          "(d) engine B on the assembly bit emitters encode_deflate_icf_04/06: all stores inside the bit buffer, emitted bits equal the ICF encoding specification for symbolic code bits, incl. every per-lane long-code threshold. (e) engine C on isal_deflate_finish_01: with n <= 3 input bytes and any output space, or n <= 6 and avail_out < 8, every load/store stays inside the input chunk / output window, counters move together.",
